@@ -48,7 +48,10 @@ PipelineOk(e) ==
              IF F!Dropped(cfg, d.m.h, d.m.x) THEN r.pm[i].v = "filtered" /\ r.pm[i].n = d.m.h.plen
                                             ELSE r.pm[i].v = "msg" /\ r.pm[i].h = d.m.h /\ r.pm[i].x = d.m.x
         /\ r.stats_total = Len(lens)
-Matches(e) == CASE e.op = "stats" -> StatsOk(e) [] e.op = "pipeline" -> PipelineOk(e) [] OTHER -> FALSE
+\* a stream of e.n log messages, all with the same application id, no ECU id, and pairwise distinct context ids (by construction
+\* of the driver): one entry per context id, every table's total = the number of messages
+ManyIdsOk(e) == LET r == e.res IN r.v = "ok" /\ r.ctx_entries = e.n /\ r.ctx_total = e.n /\ r.app_entries = 1 /\ r.app_total = e.n /\ r.ecu_total = e.n
+Matches(e) == CASE e.op = "stats" -> StatsOk(e) [] e.op = "manyids" -> ManyIdsOk(e) [] e.op = "pipeline" -> PipelineOk(e) [] OTHER -> FALSE
 Init == l = 1 /\ bad = <<>>
 Next == l <= Len(Rec) /\ l' = l + 1 /\ bad' = IF Matches(Rec[l]) THEN bad ELSE Append(bad, l)
 Spec == Init /\ [][Next]_<<l, bad>>
